@@ -8,6 +8,29 @@ ROOT = os.path.dirname(os.path.dirname(os.path.abspath(__file__)))
 
 # id -> (category, technique, level text, level note, design ref)
 CHECKS = {
+    'C15': ('fault_enumeration',
+            'Hypothesis-generated histories; exhaustive enumeration of every '
+            'filesystem-operation crash point of each history by in-process '
+            'snapshots, restart of each image, acknowledged-effects oracle',
+            'A generated history of <= 8 commands (APPEND, STORE, COPY, MOVE, '
+            'EXPUNGE, CREATE, RENAME, SUBSCRIBE, CHECK) runs on a fresh '
+            'maildir store ("++" and "fs" layout; temp filesystem and, when '
+            'present, /dev/shm as a second filesystem) under harness.fsmon, '
+            'which copies the store before every mutating filesystem operation '
+            '- the disk image of a kill at that point - and after the last '
+            'command. Every image is restarted with a new backend (stale lock '
+            'files aged past expiry), all mailboxes are listed, examined and '
+            'dumped, and one more APPEND is made. Everything acknowledged '
+            'before the crash point must be served (X-Vid, flags, size, UID '
+            'under the same UIDVALIDITY, mailboxes, subscriptions), the '
+            'in-flight command may be applied or not, no (UIDVALIDITY, UID) '
+            'ever reported may denote another message or be assigned again. '
+            'Exhaustive over the crash points of each generated history; '
+            'histories are sampled.',
+            'Crash image = store as the OS sees it before operation k (loss '
+            'of un-fsynced data by the OS is out of scope); one server '
+            'process on the asyncio subsystem.',
+            'DESIGN.md section 3, C15'),
     'C16': ('exploration',
             'Hypothesis-generated schedules on a harness-owned event loop '
             '(commands fed without waiting, k loop iterations, write-gate '
